@@ -262,6 +262,9 @@ def run(tier, seed):
             cfg["earlier_runs"] = rnd.choice([0, 0, 1, 2])
             cfg["same_path"] = cfg["earlier_runs"] > 0 and rnd.random() < 0.5
             cfg["overwrite_flag"] = rnd.choice(["True", "True", "numpy.True_", "1"])
+            if ci < 3:
+                # every run of the check replaces an existing file with each spelling of the flag
+                cfg["earlier_runs"], cfg["same_path"], cfg["overwrite_flag"] = 1, True, ["numpy.True_", "1", "True"][ci]
             if cfg["target"] == "uniform":
                 cfg["boxed"] = True
             bseed = rnd.randrange(1 << 30)
